@@ -5,7 +5,9 @@ import (
 	"errors"
 	"fmt"
 	"math"
+	"runtime"
 	"strings"
+	"sync/atomic"
 
 	"github.com/kelindar/column"
 )
@@ -60,17 +62,18 @@ func (k Kind) Width() int {
 type MergeKind uint8
 
 const (
-	MDefault MergeKind = iota // numbers: wrapping addition; strings/records: replace by the delta
-	MMulAdd                   // numbers: value*3 + delta (order-sensitive, wrapping)
-	MConcat                   // strings: value + delta (changes the length)
-	MMix                      // strings: order-sensitive, same length as the delta
-	MRecSum                   // records: A += d.A, B = v.B + d.B (changes the length)
-	MRecMix                   // records: A = v.A*3 + d.A, B = d.B (order-sensitive, same length as the delta)
-	MMax                      // strings: the greater of value and delta, returned AS IS (no copy; commutative)
+	MDefault       MergeKind = iota // numbers: wrapping addition; strings/records: replace by the delta
+	MMulAdd                         // numbers: value*3 + delta (order-sensitive, wrapping)
+	MConcat                         // strings: value + delta (changes the length)
+	MMix                            // strings: order-sensitive, same length as the delta
+	MRecSum                         // records: A += d.A, B = v.B + d.B (changes the length)
+	MRecMix                         // records: A = v.A*3 + d.A, B = d.B (order-sensitive, same length as the delta)
+	MMax                            // strings: the greater of value and delta, returned AS IS (no copy; commutative)
+	MRecAddInPlace                  // records: v.A += d.A, returns v itself (mutates and returns one of its arguments; commutative)
 	numMergeKinds
 )
 
-var mergeNames = [...]string{"default", "muladd", "concat", "mix", "recsum", "recmix", "max"}
+var mergeNames = [...]string{"default", "muladd", "concat", "mix", "recsum", "recmix", "max", "recadd-inplace"}
 
 func (m MergeKind) String() string { return mergeNames[m] }
 
@@ -174,7 +177,14 @@ type Rec struct {
 	B string
 }
 
+// recYield makes MarshalBinary yield the processor first (widens the window between a merge
+// function returning and its result being encoded; used by the free-parallel checks only).
+var recYield atomic.Bool
+
 func (r *Rec) MarshalBinary() ([]byte, error) {
+	if recYield.Load() {
+		runtime.Gosched()
+	}
 	out := make([]byte, 4+len(r.B))
 	binary.BigEndian.PutUint32(out, r.A)
 	copy(out[4:], r.B)
@@ -227,6 +237,10 @@ func mergeBytes(k Kind, mk MergeKind, cur, delta string) string {
 			return string(out)
 		case MRecMix:
 			out, _ := recMix(&v, &d).MarshalBinary()
+			return string(out)
+		case MRecAddInPlace:
+			v.A += d.A
+			out, _ := v.MarshalBinary()
 			return string(out)
 		}
 		// default record merge returns the delta; it is re-marshalled by the column
@@ -371,6 +385,8 @@ func newColumn(cs ColSpec) column.Column {
 			return column.ForRecord(mk, column.WithMerge(recSum))
 		case MRecMix:
 			return column.ForRecord(mk, column.WithMerge(recMix))
+		case MRecAddInPlace:
+			return column.ForRecord(mk, column.WithMerge(func(v, d *Rec) *Rec { v.A += d.A; return v }))
 		}
 		return column.ForRecord(mk)
 	}
